@@ -181,7 +181,7 @@ func runC05(c *Ctx) {
 	if u := c.unit("C05-R4", "wal.Repair"); u != nil {
 		r.Order("C05-R4", u, an.Call("wal.(*decoder).decode"), []an.M{an.LocalStore("lastOffset")}, an.OrderOpts{Min: 1})
 		r.StoreValues("C05-R4", u, an.LocalStore("lastOffset"), []string{"decoder.lastOffset()"}, 1)
-		r.ArgValues("C05-R4", u, an.Call("os.(*File).Truncate"), 0, []string{"int64(lastOffset)"}, 1)
+		r.ArgValues("C05-R4", u, an.Call("os.(*File).Truncate"), 0, []string{"lastOffset"}, 1)
 		r.Order("C05-R4", u, an.Call("os.(*File).Truncate"), []an.M{an.Call("io.Copy")}, an.OrderOpts{Success: an.NilErr, Min: 1})
 		r.Follow("C05-R4", u, an.Call("os.(*File).Truncate"), []an.M{an.Call("pkg/fileutil.Fsync")}, an.FollowOpts{FromSuccess: an.NilErr, Min: 1})
 		// the loop variable must be re-read in every iteration: the assignment sits inside the loop
